@@ -116,8 +116,9 @@ def check_key_helper(
 
     if len(key) > 250:
         raise MemcacheIllegalInputError("Key is too long: %r" % key)
-    # second statement catches leading or trailing whitespace
-    elif len(parts) > 1 or (parts and parts[0] != key):
+    # second statement catches leading or trailing whitespace, third a key
+    # made of nothing but whitespace
+    elif len(parts) > 1 or (parts and parts[0] != key) or (key and not parts):
         raise MemcacheIllegalInputError("Key contains whitespace: %r" % key)
     elif b"\00" in key:
         raise MemcacheIllegalInputError("Key contains null: %r" % key)
@@ -371,9 +372,12 @@ class Client:
 
     def check_key(self, key: Key, key_prefix: bytes) -> bytes:
         """Checks key and add key_prefix."""
-        return check_key_helper(
+        key = check_key_helper(
             key, allow_unicode_keys=self.allow_unicode_keys, key_prefix=key_prefix
         )
+        if not key:
+            raise MemcacheIllegalInputError("Key is empty")
+        return key
 
     def _connect(self) -> None:
         self.close()
